@@ -292,6 +292,14 @@ package sshfx
 //@   ensures old(b.Err) == nil && b.Err == nil ==> len(old(b.b)) - old(b.off) >= 4 && len(result) == int(old(be32(b.b, b.off))) && b.off == old(b.off) + 4 + len(result)
 // (the copy has the length announced on the wire, whatever the length and capacity of the hint)
 
+//@ extend func (*Buffer).ConsumeByteSlice
+//@   content C06
+//@   content-ensures old(b.Err) == nil && b.Err == nil ==> forall(j, 0 <= j && j < len(result) ==> result[j] == b.b[old(b.off) + 4 + j])
+
+//@ extend func (*Buffer).ConsumeString
+//@   content C06
+//@   content-ensures old(b.Err) == nil && b.Err == nil ==> forall(j, 0 <= j && j < len(result) ==> result[j] == b.b[old(b.off) + 4 + j])
+
 //@ extend func (encoding/binary.bigEndian).PutUint32
 //@   ensures be32(b, 0) == v
 //@   content-ensures forall(i, 4 <= i && i < len(b) ==> b[i] == old(b[i]))
@@ -419,6 +427,38 @@ def sshfx_packet(st, typ, fields):
     return L
 
 
+def sshfx_decoder(st, fields):
+    """UnmarshalPacketBody(buf): the fields are read from the unconsumed part of buf at the tabled offsets."""
+    L = ["//@ extend func (*%s).UnmarshalPacketBody" % st, "//@   property C06", "//@   content C06"]
+    off = 0
+    offs = []
+    B = "old(buf.off)"
+
+    def O(extra=0):
+        return " + ".join([B, str(off + extra)] + offs)
+    dec = []
+    cont = []
+    for k, f in fields:
+        if f.startswith("uint32("):
+            f2 = f[len("uint32(p."):-1]
+            dec.append("uint32(p.%s) == be32(buf.b, %s)" % (f2, O())); off += 4
+        elif k == "u32":
+            dec.append("p.%s == be32(buf.b, %s)" % (f, O())); off += 4
+        elif k == "u64":
+            dec.append("p.%s == be64(buf.b, %s)" % (f, O())); off += 8
+        elif k == "str":
+            dec.append("len(p.%s) == int(be32(buf.b, %s))" % (f, O()))
+            cont.append("old(buf.Err) == nil && err == nil ==> forall(j, 0 <= j && j < len(p.%s) ==> p.%s[j] == buf.b[%s + j])" % (f, f, O(4)))
+            offs.append("int(be32(buf.b, %s))" % O())
+            off += 4
+    L.append("//@   ensures old(buf.Err) == nil && err == nil ==> " + " && ".join(dec))
+    L.append("//@   ensures old(buf.Err) == nil && err == nil ==> buf.off == %s" % O())
+    for c in cont:
+        L.append("//@   content-ensures " + c)
+    L.append("")
+    return L
+
+
 def main():
     out = ["//go:build verif", "", "package sftp", "",
            "// Code generated by /verif/tools/gen_c06_contracts.py; DO NOT EDIT.",
@@ -456,8 +496,19 @@ def main():
     open("/repo/verif_contracts_c06.go", "w").write("\n".join(out))
     open("/repo/verif_harness_c06.go", "w").write("\n".join(hgo))
     sx = [SSHFX_HEAD]
+    # request type byte -> Go type of the packet object the decoder allocates (draft section 3: packet types)
+    REQ = [(3, "OpenPacket"), (4, "ClosePacket"), (5, "ReadPacket"), (6, "WritePacket"), (7, "LStatPacket"), (8, "FStatPacket"),
+           (9, "SetstatPacket"), (10, "FSetstatPacket"), (11, "OpenDirPacket"), (12, "ReadDirPacket"), (13, "RemovePacket"),
+           (14, "MkdirPacket"), (15, "RmdirPacket"), (16, "RealPathPacket"), (17, "StatPacket"), (18, "RenamePacket"),
+           (19, "ReadLinkPacket"), (20, "SymlinkPacket"), (200, "ExtendedPacket")]
+    sx += ["//@ extend func newPacketFromType", "//@   property C06"]
+    for t, g in REQ:
+        sx.append("//@   ensures typ == %d ==> err == nil && typeis(pkt, *%s)" % (t, g))
+    sx.append("//@   ensures " + " && ".join("typ != %d" % t for t, _ in REQ) + " ==> err != nil")
+    sx.append("")
     for st, typ, fields in SSHFX:
         sx += sshfx_packet(st, typ, fields)
+        sx += sshfx_decoder(st, fields)
     open("/repo/internal/encoding/ssh/filexfer/verif_contracts_c06.go", "w").write("\n".join(sx))
     print("wrote", len(PACKETS), "packet layouts")
 
